@@ -3,6 +3,7 @@ package main
 import (
 	"bufio"
 	"bytes"
+	"context"
 	"encoding/json"
 	"fmt"
 	"os"
@@ -252,7 +253,14 @@ func spawnWorker(prop, tier string, base uint64, from, to int, only string, goma
 	if only != "" {
 		args = append(args, only)
 	}
-	cmd := exec.Command(exe, args...)
+	// watchdog: a worker that does not finish is machinery trouble (exit 2), never a verdict
+	limit := 25 * time.Minute
+	if tier == "thorough" {
+		limit = 5 * time.Hour
+	}
+	ctx, cancel := context.WithTimeout(context.Background(), limit)
+	defer cancel()
+	cmd := exec.CommandContext(ctx, exe, args...)
 	cmd.Env = append(os.Environ(), "GOMAXPROCS="+strconv.Itoa(gomaxprocs))
 	var out, errb bytes.Buffer
 	cmd.Stdout = &out
